@@ -45,6 +45,8 @@ type Contract struct {
 	Asserts      []*Clause
 	CrashInv     []*Clause
 	Ghost        []*GhostStmt // ghost assignments anchored after calls
+	TrustFrame   string          // non-empty: the modifies clause is assumed, not proved (reason)
+	MergeAt      int             // loop-head join threshold for this function (directive mergeat; default 6)
 	Dead         map[string]bool // call sites (name#ordinal) acknowledged as unreachable in context (dead defensive code)
 	Witness      []*Clause
 	Replay       string
@@ -134,7 +136,7 @@ var keywords = map[string]bool{
 	"func": true, "requires": true, "ensures": true, "modifies": true, "trusted": true,
 	"inline": true, "maypanic": true, "panic_ensures": true, "loop": true, "pure": true,
 	"ghost": true, "axiom": true, "witness": true, "replay": true, "assert": true,
-	"nonilcheck": true, "props": true, "nilable": true, "crash_inv": true, "view": true, "opaque": true, "ghostcode": true, "dead": true, "depends": true,
+	"nonilcheck": true, "props": true, "nilable": true, "crash_inv": true, "view": true, "opaque": true, "ghostcode": true, "dead": true, "depends": true, "mergeat": true, "trustframe": true,
 }
 
 type directive struct {
@@ -266,6 +268,23 @@ func (s *Specs) ParseFile(path, pkgPath string) error {
 			}
 			s.Depends[f[0]] = append(s.Depends[f[0]], f[1:]...)
 			cur = nil
+		case "trustframe":
+			if cur == nil {
+				return fmt.Errorf("%s:%d: trustframe outside func", d.file, d.line)
+			}
+			cur.TrustFrame = strings.TrimSpace(d.rest)
+			if cur.TrustFrame == "" {
+				return fmt.Errorf("%s:%d: trustframe needs a reason", d.file, d.line)
+			}
+		case "mergeat":
+			if cur == nil {
+				return fmt.Errorf("%s:%d: mergeat outside func", d.file, d.line)
+			}
+			k, err := strconv.Atoi(strings.TrimSpace(d.rest))
+			if err != nil {
+				return fmt.Errorf("%s:%d: mergeat: %v", d.file, d.line, err)
+			}
+			cur.MergeAt = k
 		case "dead":
 			// dead Get#1 opError#3 : these calls are on branches that cannot be taken in context
 			if cur == nil {
